@@ -1402,7 +1402,7 @@ class Gen(object):
         return c, o, m, x
 
     SCENES = ["topic", "captcha", "gates", "privs", "oper", "services", "limits", "holds", "quitlink", "latelink", "reincarnate",
-              "away", "invisible", "manychans", "banlist", "prereg", "prefixed", "banrefs"]
+              "away", "invisible", "manychans", "banlist", "prereg", "prefixed", "banrefs", "roamban", "shortlines", "svclists"]
 
     def _ref_masks(self, tgt):
         """ban masks around the session reference robust/0x<id> (resolveSessionToRemoteAddr): behind text whose case mappings
@@ -1430,7 +1430,80 @@ class Gen(object):
         lc = chan_to_lower(c)
         M = self._M
         t = self._text
-        if name == "banrefs":
+        if name == "roamban":
+            # a ban on a session reference is resolved to the address the session has AT THAT MOMENT; the session roams, the
+            # ban is lifted and set again (anything that remembers the resolved pattern per mask goes stale); sessions
+            # from the old and from the new address try to join in between
+            mask = b"*!*@robust/0x%x" % x.sid
+            old_ra = x.ra
+            M(o, b"MODE %s +b %s" % (c, mask))
+            y = self._C()
+            if y is not None:
+                y.ra = old_ra
+                for l in self._register(y):
+                    M(y, l)
+                M(y, b"JOIN " + c)
+            M(o, b"MODE %s -b %s" % (c, mask))
+            x.ra = r.choice([b"10.0.9.%d" % r.randint(1, 9), b"2001:db8:9::%x" % r.randint(1, 9)])
+            M(x, b"PING :roamed")
+            M(o, b"MODE %s +b %s" % (c, mask))
+            M(o, b"MODE %s +b" % c)
+            if y is not None:
+                M(y, b"JOIN " + c)
+                M(y, b"PART " + c)
+            z = self._C()
+            if z is not None:
+                z.ra = x.ra
+                for l in self._register(z):
+                    M(z, l)
+                M(z, b"JOIN " + c)
+            M(x, b"JOIN " + c)
+        elif name == "shortlines":
+            # truncated commands: every prefix of 1-3 bytes of a command word, in both cases, alone and with a parameter
+            words = CLIENT_COMMANDS + SERVER_COMMANDS + ["PONG", "CAP"]
+            for _ in range(r.randint(10, 25)):
+                w = r.choice(words).encode()
+                w = w[:r.randint(1, 3)]
+                if r.random() < 0.5:
+                    w = w.lower()
+                who = r.choice([x, o, m])
+                M(who, w + r.choice([b"", b"", b" ", b" x", b" :"]))
+            ns = self._C()
+            if ns is not None:
+                for w in r.sample([b"P", b"p", b"PI", b"pi", b"PIN", b"PA", b"PAS", b"N", b"NI", b"U", b"US", b"Q", b"QU", b"J"], 5):
+                    M(ns, w)
+        elif name == "svclists" and self.link and self.link.alive and self.pseudo:
+            # server-to-server JOIN / PART with channel LISTS (consecutive entries the subject is in, entries it is not in,
+            # duplicates, channels that do not exist yet) — with members that share only one of the channels
+            L = self.link
+            p1 = r.choice(self.pseudo)
+            c2 = r.choice([ch for ch in self.chans if chan_to_lower(ch) != lc] or [b"#second"])
+            c3 = b"#svc%d" % r.randint(1, 3)
+            M(x, b"JOIN " + c2)
+            if r.random() < 0.5:
+                cfg = dict(self.cfg or self._config())
+                cfg["maxc"] = len(set(chan_to_lower(ch) for s_ in self.sess for ch in s_.chans)) + r.randint(0, 2)
+                self._F(cfg)
+            M(L, b":%s JOIN %s,%s" % (p1, c, c2))
+            M(L, b":%s JOIN %s,#svcnew%d,#svcnew%d" % (p1, c3, r.randint(1, 2), r.randint(3, 4)))
+            M(L, b":%s PRIVMSG %s :hello" % (p1, c2))
+            M(L, b":%s PART %s" % (p1, b",".join(r.sample([c, c2, c3, b"#nowhere", c2], r.randint(2, 4)))))
+            M(m, b"NAMES " + c)
+            M(x, b"NAMES " + c2)
+            M(L, b":%s PART %s,%s" % (p1, c, c2))
+            M(L, b":%s JOIN %s,%s" % (p1, c2, c))
+            M(L, b":%s PART %s,%s :bye" % (p1, c2, c))
+            if r.random() < 0.6:
+                # the channel limit around the number of channels that exist (the generator only knows it approximately, so
+                # it walks the limit upwards): a list of new channels crosses the limit INSIDE one services command
+                est = len(set(chan_to_lower(ch) for s_ in self.sess for ch in s_.chans))
+                for k in range(max(1, est - 1), est + 4):
+                    cfg = dict(self.cfg or self._config())
+                    cfg["maxc"] = k
+                    self._F(cfg)
+                    M(L, b":%s JOIN #lim%da,#lim%db,#lim%dc" % (p1, k, k, k))
+                    M(L, b":%s PART #lim%da,#lim%db,#lim%dc" % (p1, k, k, k))
+        elif name == "banrefs":
             masks = self._ref_masks(x)
             r.shuffle(masks)
             for mask in masks[:r.randint(5, len(masks))]:
@@ -1498,7 +1571,9 @@ class Gen(object):
                 cfg["caphmac"], cfg["capurl"] = self.secret, b"http://captcha.example"
                 self._F(cfg)
             M(o, b"MODE %s +x" % c)
-            if r.random() < 0.5:
+            if r.random() < 0.35:
+                M(o, b"MODE %s +i" % c)          # both gates: a solved captcha does not replace the invitation
+            if r.random() < 0.4:
                 M(o, b"MODE %s +b %s" % (c, r.choice([(x.nick or b"x") + b"!*@*", b"*!*@" + x.ra, b"*!*@robust/0x%x" % x.sid, b"*!*@*"])))
             if r.random() < 0.3:
                 self.keys[lc] = b"sesame"
@@ -1600,6 +1675,7 @@ class Gen(object):
             if self.link and self.link.alive and self.pseudo:
                 M(self.link, b":%s SVSJOIN %s #other%d" % (self.pseudo[0], x.nick or b"x", r.randint(1, 3)))
                 M(self.link, b":%s JOIN #third" % self.pseudo[0])
+                M(self.link, b":%s JOIN #fourth,#fifth,#sixth" % self.pseudo[0])
             self._C()
             self._C()
         elif name == "holds" and self.link and self.link.alive:
